@@ -613,6 +613,12 @@ func pcacheLoadUnderToken(c *Ctx, rule string) {
 				bad = "a snapshot parameter whose callers are not all known"
 			}
 			for i, a := range vals {
+				if !isLoadX(a) {
+					// a local that was (re)assigned before the call: the value that reaches it
+					if r := c.ReachingStore(a, at[i]); r != nil {
+						a = r
+					}
+				}
 				if !isLoadX(a) || !writers[topFunc(at[i].Parent())] {
 					bad = "a snapshot obtained by " + c.short(at[i].Parent().String()) + " (" + abbreviate(a.String()) + "), which does not hold the write token"
 				}
